@@ -123,6 +123,17 @@ func zzNewC06World() *zzC06World {
 	_, err = w.w.LeaseOutput(wtxmgr.LockID{1}, leasedCoin.op, 100*365*24*time.Hour)
 	zzW(err)
 	leasedCoin.leased = true
+	// history of the leased coin: an unconfirmed spend of it was seen and then
+	// abandoned again (rejected broadcast); the lease is still running
+	ab := wire.NewMsgTx(2)
+	ab.AddTxIn(wire.NewTxIn(&leasedCoin.op, nil, nil))
+	ab.AddTxOut(wire.NewTxOut(100000, []byte{0x00, 0x14, 8, 9, 9, 9, 9, 9, 9, 9, 9, 9, 9, 9, 9, 9, 9, 9, 9, 9, 9, 9}))
+	abRec, err := wtxmgr.NewTxRecordFromMsgTx(ab, time.Unix(1600000000, 0))
+	zzW(err)
+	zzW(walletdb.Update(w.db, func(dbtx walletdb.ReadWriteTx) error { return w.w.addRelevantTx(dbtx, abRec, nil) }))
+	zzW(walletdb.Update(w.db, func(dbtx walletdb.ReadWriteTx) error {
+		return w.w.TxStore.RemoveUnminedTx(dbtx.ReadWriteBucket(wtxmgrNamespaceKey), abRec)
+	}))
 	return w
 }
 
